@@ -71,7 +71,9 @@ pub struct CanonicalFormatter {
 /// ```
 #[derive(Debug, Default)]
 struct Object {
-    obj: BTreeMap<Vec<u8>, Vec<u8>>,
+    /// Members keyed by the bytes of the (unescaped) key, which is what canonical JSON orders by.
+    /// The value holds the key as it will be written (quoted and escaped) and the member's value.
+    obj: BTreeMap<Vec<u8>, (Vec<u8>, Vec<u8>)>,
     next_key: Vec<u8>,
     next_value: Vec<u8>,
     key_done: bool,
@@ -111,6 +113,29 @@ impl CanonicalFormatter {
             )
         })
     }
+}
+
+/// Returns the bytes of an object key given its serialized form (surrounded by quotation marks, with
+/// `"` and `\\` escaped). Members are ordered by these bytes: ordering by the serialized form would
+/// compare the closing quotation mark and the escape characters instead of the key's own characters
+/// (for example `"a!"` would sort before `"a"`).
+fn unescaped_key(serialized: &[u8]) -> Vec<u8> {
+    let inner = match serialized {
+        [b'"', inner @ .., b'"'] => inner,
+        other => other,
+    };
+    let mut key = Vec::with_capacity(inner.len());
+    let mut bytes = inner.iter();
+    while let Some(&byte) = bytes.next() {
+        if byte == b'\\' {
+            if let Some(&escaped) = bytes.next() {
+                key.push(escaped);
+            }
+        } else {
+            key.push(byte);
+        }
+    }
+    key
 }
 
 /// Wraps `serde_json::CompactFormatter` to use the appropriate writer (see
@@ -238,7 +263,7 @@ impl Formatter for CanonicalFormatter {
         let mut writer = self.writer(writer);
         let mut first = true;
 
-        for (key, value) in object.obj {
+        for (_, (key, value)) in object.obj {
             CompactFormatter.begin_object_key(&mut writer, first)?;
             writer.write_all(&key)?;
             CompactFormatter.end_object_key(&mut writer)?;
@@ -273,7 +298,7 @@ impl Formatter for CanonicalFormatter {
         let object = self.obj_mut()?;
         let key = std::mem::take(&mut object.next_key);
         let value = std::mem::take(&mut object.next_value);
-        object.obj.insert(key, value);
+        object.obj.insert(unescaped_key(&key), (key, value));
         Ok(())
     }
 
